@@ -279,6 +279,21 @@ def steps : List (String × String) := [
 ]
 /-- the sentinel errors Add can return, in the order of the return statements -/
 def errOrder : List String := ["ErrDup", "ErrConflictsAttribute", "ErrConflictsAttribute", "ErrInsufficientFunds", "ErrConflict", "ErrOracleResponse", "ErrOOM"]
+/-- verifyTxAttributes of pkg/core/blockchain.go, case transaction.ConflictsT: (kind, detail) in source order -/
+def conflictsAttrSteps : List (String × String) := [
+  ("let", "conflicts := tx.Attributes[i].Value.(*transaction.Conflicts)"),
+  ("if", "conflictsAttrs == nil"),
+  ("let", "conflictsAttrs = tx.GetAttributes(transaction.ConflictsT)"),
+  ("loop", "conflictsAttrs"),
+  ("if", "c.Value.(*transaction.Conflicts).Hash.Equals(conflicts.Hash)"),
+  ("if", "dup"),
+  ("ret", "ErrInvalidAttribute | c.Value.(*transaction.Conflicts).Hash.Equals(conflicts.Hash) && dup"),
+  ("let", "dup = true"),
+  ("init", "err := bc.dao.HasTransaction(conflicts.Hash, nil, 0, 0)"),
+  ("let", "err := bc.dao.HasTransaction(conflicts.Hash, nil, 0, 0)"),
+  ("if", "errors.Is(err, dao.ErrAlreadyExists)"),
+  ("ret", "ErrInvalidAttribute | errors.Is(err, dao.ErrAlreadyExists)")
+]
 end Expected
 
 /-- the tables read from the current source are the ones the model was written against -/
@@ -294,8 +309,9 @@ theorem tables_pinned :
     Generated.MempoolAdd.checkPolicySteps = Expected.checkPolicySteps ∧
     Generated.MempoolAdd.compareSteps = Expected.compareSteps ∧
     Generated.MempoolAdd.getPayerSteps = Expected.getPayerSteps ∧
-    Generated.MempoolAdd.tryGetDataSteps = Expected.tryGetDataSteps :=
-  ⟨rfl, rfl, rfl, rfl, rfl, rfl, rfl, rfl, rfl, rfl, rfl, rfl⟩
+    Generated.MempoolAdd.tryGetDataSteps = Expected.tryGetDataSteps ∧
+    Generated.MempoolAdd.conflictsAttrSteps = Expected.conflictsAttrSteps :=
+  ⟨rfl, rfl, rfl, rfl, rfl, rfl, rfl, rfl, rfl, rfl, rfl, rfl, rfl⟩
 
 /-! ### the checks of `Add`, each as a condition of its own -/
 
